@@ -165,6 +165,8 @@ func runCheck(o *checkOpts) int {
 	defer os.RemoveAll(tmp)
 
 	var allObls []*Obligation
+	sampledSkipped := 0
+	skippedFuncs := map[string]bool{}
 	oblCtx := map[*Obligation]*FuncCtx{}
 	var funcs []map[string]any
 	var engineFaults []string
@@ -187,6 +189,15 @@ func runCheck(o *checkOpts) int {
 		for _, key := range eng.cs.Order {
 			con := eng.cs.Funcs[key]
 			if con.External || !con.Props[o.prop] {
+				continue
+			}
+			if !o.updateExpected && sampledOut(con, o.tier, seed) {
+				sampledSkipped++
+				if fn := eng.findFunc(con.Pkg, con.Func); fn != nil {
+					skippedFuncs[fnDisplayName(fn)] = true
+				} else {
+					missing = append(missing, con.Pkg+"::"+con.Func)
+				}
 				continue
 			}
 			res := eng.verifyFunc(con)
@@ -260,7 +271,37 @@ func runCheck(o *checkOpts) int {
 	sem := make(chan struct{}, o.jobs)
 	var solverMs int64
 	var mu sync.Mutex
+	// quick tier, first pass: one incremental solver process per function (push/pop per obligation). Only `unsat`
+	// answers (and `sat` for covers) are taken from this pass; everything else goes through the individual path
+	// below, which produces models, tries the relaxation and races the three solvers.
+	if o.tier != "thorough" && o.dump == "" {
+		groups := map[*FuncCtx][]*Obligation{}
+		var order []*FuncCtx
+		for _, ob := range allObls {
+			c := oblCtx[ob]
+			if _, ok := groups[c]; !ok {
+				order = append(order, c)
+			}
+			groups[c] = append(groups[c], ob)
+		}
+		for gi, c := range order {
+			wg.Add(1)
+			sem <- struct{}{}
+			go func(gi int, c *FuncCtx, obs []*Obligation) {
+				defer wg.Done()
+				defer func() { <-sem }()
+				ms := dischargeBatch(c, obs, tmp, gi)
+				mu.Lock()
+				solverMs += ms
+				mu.Unlock()
+			}(gi, c, groups[c])
+		}
+		wg.Wait()
+	}
 	for i, ob := range allObls {
+		if ob.Status == "unsat" || (ob.Cover && ob.Status == "sat") {
+			continue // decided in the batch pass
+		}
 		wg.Add(1)
 		sem <- struct{}{}
 		go func(i int, ob *Obligation) {
@@ -370,6 +411,10 @@ func runCheck(o *checkOpts) int {
 			engineFaults = append(engineFaults, "solver disagreement on "+ob.Name+": "+ob.Output)
 			continue
 		}
+		if ob.Status == "error" {
+			engineFaults = append(engineFaults, "ill-formed query for "+ob.Name+": "+firstLines(ob.Output, 2))
+			continue
+		}
 		violations++
 		path := writeReplay(o, ob, oblCtx[ob])
 		suffix := ""
@@ -382,6 +427,9 @@ func runCheck(o *checkOpts) int {
 	// expected obligations that vanished
 	if !o.updateExpected && o.only == "" {
 		for _, n := range expected.Names {
+			if i := strings.Index(n, "#"); i > 0 && skippedFuncs[n[:i]] {
+				continue // function not in this run's quick-tier sample
+			}
 			if !seen[n] {
 				if kf := known.match(o.prop, n); kf != nil && kf.Status == "open" {
 					continue
@@ -461,6 +509,7 @@ func runCheck(o *checkOpts) int {
 			"known_findings": knownHit,
 			"unproved_not_claimed": unproved,
 			"engine_faults":  engineFaults,
+			"schema_functions_not_in_quick_sample": sampledSkipped,
 			"samples":        samples,
 		},
 		"assumptions": asl,
